@@ -36,12 +36,19 @@ def style_name(name: str, style: str) -> str:
     }[style]
 
 
-@dataclasses.dataclass
+@dataclasses.dataclass(eq=False)
 class Inst:
     """Reference image of a dataclass instance."""
     cls: 'ClsNode'
     values: t.Dict[str, t.Any]
     set_fields: t.Set[str]
+
+    # images of (frozen) dataclass instances may be set elements and mapping keys: equal by class and field images
+    def __eq__(self, other: t.Any) -> bool:
+        return isinstance(other, Inst) and self.cls.key == other.cls.key and self.values == other.values
+
+    def __hash__(self) -> int:
+        return hash((self.cls.key, tuple(sorted(self.values))))
 
 
 class PostInitBoom(ValueError):
@@ -493,8 +500,9 @@ class TaggedNode(Node):
     def build(self):
         from pane.annotations import Tagged
         ext: t.Any = False if self.layout == 'internal' else True if self.layout == 'external' else tuple(self.layout[1:])
-        tys = tuple(v.pytype() for v in self.variants)
         from .tg import _cond_build
+        # a variant may carry annotations of its own (an always-true condition: the reference is unchanged)
+        tys = tuple(t.Annotated[v.pytype(), _cond_build(('true',))] if v.spec[1].get('annotated') else v.pytype() for v in self.variants)
         return t.Annotated[(t.Union[tys], Tagged(self.tag, ext), *(_cond_build(c) for c in self.conds))]  # type: ignore
 
     def wrap(self, tagval: t.Any, body: t.Any) -> t.Any:
@@ -705,5 +713,8 @@ def tagged_specs(draw, field_types: st.SearchStrategy[t.Any]) -> t.Any:
         opts: t.Dict[str, t.Any] = {}
         if layout != 'internal' and draw(st.integers(0, 3)) == 0 and not any(f.get('kw_only') and 'default' not in f for f in fields):
             opts['in_format'] = ['struct', 'tuple']
-        variants.append({'fields': fields, 'opts': opts, 'name': f"V{i}{spec_key(fields)[:5]}"})
+        vs: t.Dict[str, t.Any] = {'fields': fields, 'opts': opts, 'name': f"V{i}{spec_key(fields)[:5]}"}
+        if draw(st.integers(0, 3)) == 3:
+            vs['annotated'] = True
+        variants.append(vs)
     return ('tagged', layout, tag, tuple(variants))
